@@ -942,6 +942,28 @@ def r35_unwrap_or_else(src, item, ed, opts):
         ed.count("R35")
 
 
+def r40_and_then(src, item, ed, opts):
+    """`O.and_then(|P| E)` -> `(match O { Some(P) => E, None => None })`: the definition of Option::and_then;
+    only for a one-parameter closure whose body has no `?` / `return` (those would leave the closure, not the
+    function); edits inside O and E still apply"""
+    clos = {tuple(c["range"]): c for c in nodes_of(item, "closure")}
+    for n in nodes_of(item, "methodcall"):
+        if n["method"] != "and_then" or len(n["args"]) != 1:
+            continue
+        cn = clos.get(tuple(n["args"][0]["range"]))
+        if cn is None or len(cn["inputs"]) != 1:
+            continue
+        body = src.text(*cn["body"])
+        if "?" in body or re.search(r"\breturn\b", body):
+            raise Unsupported("R40: `?`/`return` inside an and_then closure")
+        pat = cn["inputs"][0]["text"]
+        # an outer node's prefix goes before an inner node's prefix at the same offset (cf. _compose_shim)
+        ed.insert(n["range"][0], "(match ", "R40", prio=-(n["range"][1] - n["range"][0]))
+        ed.replace(n["receiver"][1], cn["body"][0], f" {{ Some({pat}) => ", "R40")
+        ed.replace(cn["body"][1], n["range"][1], ", None => None })", "R40")
+        ed.count("R40")
+
+
 def r36_for_chars(src, item, ed, opts):
     """`for C in S.chars() { B }` -> `let mut it = vx_chars(S); while let Some(C) = it.next() { B }`
     (for_chars=[{over="val.chars()", it="vx_it"}]): what a `for` over an iterator is by definition"""
@@ -1037,6 +1059,7 @@ RULES = {
     "R36": r36_for_chars,
     "R37": r37_ref_pattern,
     "R39": r39_any_loop,
+    "R40": r40_and_then,
     "R24": r24_call_shim,
 }
 
